@@ -141,6 +141,7 @@ hex64 = st.sampled_from(["5c83da77af1dec6d7289834998ad7aafbd9e2191396d75ec3cc27f
                          "5c83DA77af1dec6d7289834998ad7aafbd9e2191396d75ec3cc27f5a77226F36", "00" * 32, "FF" * 32, "ab" * 31])
 tag_item = st.one_of(anytext, anytext, anytext, hex64, st.integers(-2**63, 2**63 - 1), st.booleans(), st.none(),
                      st.floats(allow_nan=False, allow_infinity=False, width=32),
+                     st.sampled_from([0.1, 48.8566, 1e-7, 3.141592653589793, 1.7976931348623157e308, 5e-324]),  # need all 64 bits
                      st.lists(st.one_of(anytext, st.integers(0, 9)), max_size=2), st.just("x" * 300))
 
 
